@@ -500,6 +500,17 @@ func closureOf(v ssa.Value) *ssa.Function {
 	switch x := unwrap(v).(type) {
 	case *ssa.MakeClosure:
 		if f, ok := x.Fn.(*ssa.Function); ok {
+			// a method value x.m, or func(){ x.m() }, denotes the method
+			if strings.HasSuffix(f.Name(), "$bound") {
+				if obj, ok := f.Object().(*types.Func); ok {
+					if m := f.Prog.FuncValue(obj); m != nil && m.Blocks != nil {
+						return m
+					}
+				}
+			}
+			if m := forwardedMethod(f); m != nil && m.Blocks != nil {
+				return m
+			}
 			return f
 		}
 	case *ssa.Function:
@@ -546,7 +557,7 @@ type goLoop struct {
 	Go        *ssa.Go
 	Body      *ssa.Function
 	HasLoop   bool
-	ExitConds []string  // description of what the loop's continuation depends on
+	ExitConds []string    // description of what the loop's continuation depends on
 	FlagField []*fieldRef // bool fields tested by the loop condition
 	Selects   []*ssa.Select
 }
